@@ -9,13 +9,22 @@ shared container and, once the task has re-seeded (`s`), on the numpy global gen
 def Agree (rel : Nat → Bool) (s : Bool) (e1 e2 : Env) : Prop :=
   (∀ c, rel c = true → e1.shared c = e2.shared c) ∧ (s = true → e1.np = e2.np)
 
+theorem Env.setRng_objs (e : Env) (g : Gen) (s : Nat) : (e.setRng g s).objs = e.objs := by cases g <;> rfl
+
 /-- a task that deep-copies never changes the shared object graph -/
 theorem step_objs (sim : Nat) (seedOf : Nat → Nat) (p : Priv) (e : Env) (op : Op) :
     (step true sim seedOf p e op).2.objs = e.objs := by
   cases op with
-  | draw g => cases g <;> simp [step, Env.setRng]
-  | touch o v => simp [step]
-  | _ => rfl
+  | draw g =>
+    simp only [step]
+    exact Env.setRng_objs _ _ _
+  | touch o v => simp only [step, if_true]
+  | seed d => simp only [step]
+  | read c => simp only [step]
+  | write c v => simp only [step]
+  | comp k => simp only [step]
+  | emit => simp only [step]
+  | look o => simp only [step]
 
 theorem exec_objs (sim : Nat) (seedOf : Nat → Nat) : ∀ (ops : List Op) (p : Priv) (e : Env),
     (exec true sim seedOf ops p e).2.objs = e.objs := by
@@ -258,5 +267,18 @@ theorem conforms_clean (T : Tables) (p : Prog) (hr : T.rngAllSeeded) (hm : T.noS
       simp only [Prog.allOps, List.mem_append, List.mem_flatten]
       exact Or.inl (Or.inr ⟨b, hb, ho⟩))
   · exact hall _ (fun o ho => by simp [Prog.allOps, ho])
+
+/-- the day-loop entry of the seed-point table -/
+theorem dayLoopReseeds_of_consumers (T : Tables) (h : T.consumersReseeded) : T.dayLoopReseeds = true := by
+  obtain ⟨hall, hone⟩ := h
+  have hne : T.seedPoints.filter (fun p => decide (p.kind = .dayLoop)) ≠ [] := by
+    intro h0
+    rw [h0] at hone
+    simp at hone
+  obtain ⟨p, hp⟩ := List.exists_mem_of_ne_nil _ hne
+  rw [List.mem_filter] at hp
+  unfold Tables.dayLoopReseeds
+  rw [List.any_eq_true]
+  exact ⟨p, hp.1, by simp [hall p hp.1, hp.2]⟩
 
 end LdarModel.Effects
